@@ -481,7 +481,12 @@ PROPS["C15"] = {
                    "at equal addresses the bytes are compared with the recorded copy. The workload mixes plain notes with "
                    "stores that replace or delete referenced events, explicit removals, and 'tail' steps in which the "
                    "referenced event is the newest thing in the map when it is replaced or removed and further events "
-                   "are appended afterwards (space of a removed event must not be handed out again)."),
+                   "are appended afterwards (space of a removed event must not be handed out again). Every stored event is "
+                   "referenced (ephemeral kinds included; some sized to end in the last word of the backing file). In a "
+                   "third of the histories a second thread submits refused requests (another author's deletion requests, "
+                   "duplicates) and small events of its own concurrently with the monitored thread's stores, which linger "
+                   "400 us right after taking the write lock; the second thread is held back only while the monitor reads "
+                   "through references. Every offset must be readable the moment store_event has returned it."),
     "level_note": "ASan/valgrind/Miri cannot see munmap-based dangling, hence the address/maps oracle; whether mremap moves the mapping depends on the address-space layout of the run",
     "legs": lambda tier: both("c15", timeout=3600 if tier == "thorough" else 600),
     "rule": ("histories of 60 (debug) / 230 (release) stores with up to 40 tracked references; distinct = hash of "
